@@ -75,6 +75,9 @@ def gen_notes(rng):
             notes.append((1, b"GNU\0", rand_bytes(rng, rng.choice([0, 15, 17, 32]))))     # wrong-size ABI tag
         elif k < 0.52:
             notes.append((rng.randrange(0, 10), b"", b""))                                    # header-only record
+        elif k < 0.62:       # owner names that are "GNU" up to NUL padding / case, with the typed note numbers
+            notes.append((rng.choice([1, 3]), rng.choice([b"GNU", b"GNU\0\0", b"GNU\0\0\0\0\0", b"GNU ", b"gnu\0", b"GN\0", b"GNUX", b"\0GNU"]),
+                          rand_bytes(rng, rng.choice([16, 16, 4, 20]))))
         else:
             nm = bytes(rng.choice(b"ABCxyz\0\xc3\xa9\xff") for _ in range(rng.randrange(0, 41)))
             if rng.random() < 0.5:
